@@ -609,3 +609,74 @@ def check_C11(rep, tier):
     rep.assumptions += ["ring's ed25519 is deterministic, so equality of signatures is equality of signed bytes",
                         "the harness' own OLPC renderer is the reference; it is checked against CJson.tla's Olpc atoms on every scenario",
                         "serde_json's Value serialisation of the metadata gives the member set that is signed"]
+
+
+# ----------------------------------------------------------------------------- C10
+def check_C10(rep, tier):
+    rep.cov["rule"] = ("TLC enumerates JSON value shapes (every number class incl. the i64/u64 boundaries, floats, exponents; strings and "
+                       "member names over the character classes; arrays, objects, two nesting levels), checks that an order-free "
+                       "canonical writer is accepted by the token acceptor and computes the allowed verdict.  Each value is "
+                       "instantiated (several class members), written in 4 textual spellings (member order, whitespace, \\uXXXX "
+                       "escapes, \\/), canonicalised by Json::canonicalize and the output tokenised by an independent tokeniser; "
+                       "Trace_CJson accepts iff verdict allowed, all spellings gave the same bytes, members sorted by code point, "
+                       "parse-back identical, integers exact, and the token stream renders exactly the value with JSON-valid "
+                       "escapes.  Non-trivial = contains a string/member name needing escapes, a boundary integer, a non-integer or "
+                       "an object with two members.")
+    sh = Sharder("C10")
+    allow = {}
+
+    def on_scn(s):
+        i = sh.add({"m": "C10", "v": s["v"]})
+        allow[i] = s["allow"]
+        txt = json.dumps(s["v"])
+        if any(x in txt for x in ('"Q"', '"B"', '"N"', '"E"', '"C"', '"S"', '"U"', "i64", "u64", "frac", "exp", "zero")) or txt.count('"k"') >= 2:
+            rep.nontrivial(i)
+        if i % 97 == 11:
+            rep.sample({"value": s["v"], "allowed": s["allow"]})
+
+    st = run_tlc("MC_C10", f"MC_C10_{tier}.cfg", "c10", on_scn=on_scn)
+    require_clean(st, "MC_C10")
+    rep.add_tlc(st, "MC_C10")
+    rep.vacuity(["Convert", "WriteOut"])
+    rep.cov["exhaustive"] = True
+    trace = os.path.join(vlib.OUT, "c10.trace.ndjson")
+    nrun = 0
+    skipped = 0
+    with open(trace, "w") as tf:
+        for salt in range(3 if tier == "quick" else 12):
+            sh.run(env_extra={"ITV_SALT": str(salt)})
+            for r in sh.results():
+                i = r["i"]
+                if "skip" in r:
+                    skipped += 1
+                    continue
+                nrun += 1
+                o = r.get("out")
+                mk = lambda i=i, r=r, salt=salt: {"scn": dict(sh.scenario(i), allow=allow[i]), "actual": {k: v for k, v in r.items() if k != "event"}, "env": {"ITV_SALT": str(salt)}}
+                if o not in allow[i]:
+                    rep.mismatch({"kind": "verdict", "actual": o, "allowed": allow[i]}, mk)
+                elif not r.get("same", False):
+                    rep.mismatch({"kind": "depends_on_spelling"}, mk)
+                elif o == "ok" and not (r.get("sorted") and r.get("parseback") and r.get("nums_exact") and not r.get("tok_err")):
+                    rep.mismatch({"kind": "not_canonical", "sorted": r.get("sorted"), "parseback": r.get("parseback"),
+                                  "nums_exact": r.get("nums_exact"), "tok_err": r.get("tok_err")}, mk)
+                if "event" in r:
+                    tf.write(json.dumps(r["event"]) + "\n")
+    rep.cov["evaluations"] = nrun * 4
+    rep.cov["skipped_unparseable_source"] = skipped
+    sh.cleanup()
+    total, rejected, tst = validate_trace(trace, "Trace_CJson", "Trace_CJson.cfg", "t10", reset_ev="canon")
+    rep.cov["traces_validated_against_impl"] = total - len(rejected)
+    rep.cov["parts"]["trace"] = {"runs": total, "rejected": len(rejected), "states": tst.distinct}
+    for rj in rejected:
+        rep.mismatch({"kind": "trace_rejected"}, {"trace": rj["lines"][:3], "at": rj["at"]})
+    with open(trace) as f:
+        rep.sample({"trace_event": json.loads(f.readline())})
+    os.remove(trace)
+    res = json.loads(run_itv(["record", "C10all", "1" if tier == "thorough" else str(61 + vlib.seed() % 7)], timeout=3000))
+    rep.cov["unicode_scalars_checked"] = res["chars"]
+    for b in res["bad"]:
+        rep.mismatch({"kind": "unicode_member_or_content"}, {"case": b})
+    rep.assumptions += ["serde_json is the JSON parser used to obtain values from text and for parse-back (trusted)",
+                        "duplicate member names in source text are outside the quantifier",
+                        "integer-valued but not integer-spelled numbers (1e2, 1.0, -0) and integers beyond 64 bits: rejection and exact rendering both allowed"]
